@@ -128,10 +128,15 @@ func VH_parse_der_signature() {
 func VH_parse_lax_signature() {
 	lens := []int{0, 7, 8, 9, 11}
 	if vTier() == 1 {
-		lens = []int{0, 1, 7, 8, 9, 10, 11, 12, 16, 40, 72, 73, 80}
+		lens = []int{0, 1, 7, 8, 9, 10, 11, 12, 13, 71, 72}
 	}
 	n := lens[vNondetLen("leni", len(lens)-1)]
 	sig := vNondetBytes("sig", n)
+	if n >= 40 {
+		// long inputs: one body spanning the whole input with R of 32 or 33 bytes (the general interplay of the
+		// two declared lengths is explored exhaustively on the short inputs)
+		vAssume(int(sig[1]) == n-2 && (sig[3] == 32 || sig[3] == 33))
+	}
 	_, err := ParseSignature(sig)
 	_, errDer := ParseDERSignature(sig)
 	vAssert(errDer != nil || err == nil, "whatever the strict parser accepts the lax parser accepts")
